@@ -56,7 +56,7 @@ func execDfragX(args []string) string {
 			} else if how == 2 {
 				cs = append(cs, rdrChunk{0, io.EOF})
 			}
-			ans := execDfrag(append(append([]string(nil), base...), "s:"+rbLens(cs)))
+			ans := dfragAnswer(append(append([]string(nil), base...), "s:"+rbLens(cs)), false)
 			add(ans)
 			n++
 			if strings.HasSuffix(ans, "v=diff") {
@@ -65,7 +65,7 @@ func execDfragX(args []string) string {
 		}
 	}
 	for k := 0; k <= L; k++ {
-		ans := execDfrag(append(append([]string(nil), base...), "s:"+rbLens([]rdrChunk{{n: k}, {0, rdrErr(7)}})))
+		ans := dfragAnswer(append(append([]string(nil), base...), "s:"+rbLens([]rdrChunk{{n: k}, {0, rdrErr(7)}})), false)
 		add(ans)
 		n++
 	}
@@ -248,7 +248,11 @@ func fragDecodeM(r io.Reader, chk bool, hasSize bool, size int, full bool) (stri
 	return status + sb.String(), dapiDigest(msgs, false)
 }
 
-func execDfrag(args []string) string {
+func execDfrag(args []string) string { return dfragAnswer(args, true) }
+
+// dfragAnswer: withM = the answer carries the value digest `m=` (not inside the exhaustive sweeps of dfragx: thousands of
+// decodes per operation, whose value level is covered by `v=`)
+func dfragAnswer(args []string, withM bool) string {
 	a, ok := fragParse(args)
 	if !ok {
 		return "bad-op"
@@ -258,7 +262,9 @@ func execDfrag(args []string) string {
 		return "bad-op"
 	}
 	ans, m := fragDecodeM(r, a.chk, a.hasSize, a.size, false)
-	ans += " m=" + m
+	if withM {
+		ans += " m=" + m
+	}
 	v := "na"
 	if clean {
 		// value level: everything the listeners and Decode hand out, fragmented vs one contiguous buffer (default options)
